@@ -174,6 +174,9 @@ class Acc(object):
         for k, v in o.metrics.items():
             if k not in d["metrics"] or v > d["metrics"][k]:
                 d["metrics"][k] = v
+        if not o.inconclusive and len(d.setdefault("any_samples", [])) < 2:
+            d["any_samples"].append({"part": part.name, "case": o.sample if o.sample is not None else abbreviate(spec),
+                                     "classes": dict(o.classes), "nontrivial": bool(o.nontrivial)})
         if o.nontrivial and not o.inconclusive:
             h = spec_hash(spec)
             d["nontrivial_hashes"].append(h)
@@ -206,6 +209,9 @@ class Acc(object):
             d["inc_examples"].setdefault(k, v)
         d["violations"] += e["violations"]
         d["harness_errors"] += e["harness_errors"]
+        for s in e.get("any_samples", []):
+            if len(d.setdefault("any_samples", [])) < 3:
+                d["any_samples"].append(s)
         for s in e["samples"]:
             if len([x for x in d["samples"] if x["part"] == s["part"]]) < 2:
                 d["samples"].append(s)
@@ -370,7 +376,8 @@ def run_check(pid, tier, seed, only_part=None):
         if p.cases is not None:
             ns = max(1, min(NSHARD, len(p.cases)))
         else:
-            ns = max(1, min(NSHARD, p.examples))
+            # hypothesis starts every run with its simplest examples: keep at least 4 examples per shard
+            ns = max(1, min(NSHARD, p.examples // 4))
         for s in range(ns):
             tasks.append((pid, tier, seed, p.name, s, ns))
     ctx = mp.get_context("fork")
@@ -405,7 +412,7 @@ def run_check(pid, tier, seed, only_part=None):
         part = pmap.get(v["part"])
         if tier == "thorough" and part is not None and part.strategy is not None and part.shrink:
             # shrink inside hypothesis: rerun the shards (same seeds) restricted to this signature
-            ns = max(1, min(NSHARD, part.examples))
+            ns = max(1, min(NSHARD, part.examples // 4))
             st = [(pid, tier, seed, part.name, s, ns, sig, 240) for s in range(ns)]
             best = None
             with ctx.Pool(min(NSHARD, ns), maxtasksperchild=1) as pool:
@@ -435,7 +442,7 @@ def run_check(pid, tier, seed, only_part=None):
             "evaluations": d["evaluations"],
             "distinct_nontrivial": distinct,
             "rule": mod.RULE,
-            "samples": d["samples"][:8],
+            "samples": (d["samples"][:8] or d.get("any_samples", [])[:3]),
             "exhaustive": exhaustive,
             "explanation": getattr(mod, "EXPLANATION", ""),
             "assertions_evaluated": d["checks"],
@@ -459,7 +466,12 @@ def run_check(pid, tier, seed, only_part=None):
     evp = os.path.join(evdir, pid + ".json")
     with open(evp, "w") as f:
         json.dump(ev, f, indent=1, sort_keys=True, default=str)
-    validate_evidence(evp)
+    try:
+        validate_evidence(evp)
+        ev_ok = True
+    except Exception as e:  # noqa
+        print("HARNESS-ERROR: evidence file does not validate: %s" % str(e).splitlines()[0])
+        ev_ok = False
 
     # 5. report
     print("%s tier=%s seed=%s cases=%d nontrivial=%d assertions=%d violations=%d known=%d inconclusive=%d wall=%.1fs"
@@ -478,6 +490,8 @@ def run_check(pid, tier, seed, only_part=None):
             print("HARNESS-ERROR part=%s\n%s" % (h["part"], h["error"]))
             p = write_replay(pid, h["part"], "harness_error", h["spec"], h["error"], seed, "-harness")
             print("  spec saved to", p)
+        return 2
+    if not ev_ok:
         return 2
     if distinct < 2 or d["evaluations"] < 1:
         print("HARNESS-ERROR: fewer than 2 distinct non-trivial cases (%d)" % distinct)
